@@ -459,7 +459,20 @@ def generic_id_derivation(ctx, res, cd, s3):
         for kp in ('', 'team/', 'a/b/', 'service_metadata/', 'metadata/', 'full/'):
             for rid in ('Op/20240131/abc', 'metadata/20240131/x'):
                 key = tmpl.format(key_prefix=kp, id=rid)
-                got = eval_pred(e, {keyvar: key, 'self': dict(consts, key_prefix=kp)}, it3.module)
+                selfenv = dict(consts, key_prefix=kp)
+                # fields the constructor derives from the templates / the prefix (evaluated where the evaluator can)
+                init3 = s3.lookup('__init__')
+                for a_ in (walk_own(init3.node) if init3 is not None else []):
+                    if isinstance(a_, ast.Assign) and len(a_.targets) == 1 and isinstance(a_.targets[0], ast.Attribute) and \
+                            isinstance(a_.targets[0].value, ast.Name) and a_.targets[0].value.id == 'self' and a_.targets[0].attr not in selfenv:
+                        try:
+                            selfenv[a_.targets[0].attr] = eval_pred(a_.value, {'self': selfenv}, it3.module)
+                        except (Undecidable, KeyError, TypeError, AttributeError):
+                            pass
+                try:
+                    got = eval_pred(e, {keyvar: key, 'self': selfenv}, it3.module)
+                except KeyError as ke:
+                    raise Undecidable('field %s of the cassette' % ke)
                 n += 1
                 if got != rid:
                     wrong.append((kp, key, got, rid))
